@@ -62,7 +62,7 @@ func containsTxEnd(info *types.Info, n ast.Node, obj types.Object) bool {
 			}
 			return false
 		case *ast.CallExpr:
-			if txCallOn(info, v, obj, "Commit", "Rollback") {
+			if txCallOn(info, v, obj, "Commit", "Rollback") || txEndWrapperCall(info, v, obj, 0) {
 				found = true
 				return false
 			}
@@ -81,6 +81,73 @@ func containsTxEnd(info *types.Info, n ast.Node, obj types.Object) bool {
 		return true
 	}
 	ast.Inspect(n, func(x ast.Node) bool { return visit(x, false) })
+	return found
+}
+
+// txWrapIx is the call index used to summarise same-module wrappers ("a function that ends the
+// transaction it is handed on every path counts as ending it"); set by the rules that use PAIR.
+var txWrapIx *astx.Index
+
+// txEndWrapperCall reports whether call hands obj to a function of the repository that commits or
+// rolls back that parameter on every path to each of its exits (a rollback-and-log helper).
+func txEndWrapperCall(info *types.Info, call *ast.CallExpr, obj types.Object, depth int) bool {
+	if txWrapIx == nil || depth > 2 {
+		return false
+	}
+	f := astx.Callee(info, call)
+	if f == nil {
+		return false
+	}
+	d := txWrapIx.Decls[f]
+	if d == nil || d.Decl.Body == nil || d.Decl.Type.Params == nil {
+		return false
+	}
+	var params []types.Object
+	for _, fl := range d.Decl.Type.Params.List {
+		for _, nm := range fl.Names {
+			params = append(params, d.Pkg.TypesInfo.ObjectOf(nm))
+		}
+		if len(fl.Names) == 0 {
+			params = append(params, nil)
+		}
+	}
+	for i, a := range call.Args {
+		id, ok := ast.Unparen(a).(*ast.Ident)
+		if !ok || info.Uses[id] != obj || i >= len(params) || params[i] == nil {
+			continue
+		}
+		p := params[i]
+		flow := astx.NewFlow(d.Pkg.TypesInfo, d.Decl.Body)
+		stop := func(n ast.Node) bool { return containsTxEndDepth(d.Pkg.TypesInfo, n, p, depth+1) }
+		all := true
+		for _, e := range flow.Exits() {
+			if flow.PathAvoiding(nil, e, stop) {
+				all = false
+			}
+		}
+		if all && len(flow.Exits()) > 0 {
+			return true
+		}
+	}
+	return false
+}
+
+func containsTxEndDepth(info *types.Info, n ast.Node, obj types.Object, depth int) bool {
+	found := false
+	ast.Inspect(n, func(x ast.Node) bool {
+		if found {
+			return false
+		}
+		switch v := x.(type) {
+		case *ast.FuncLit:
+			return false
+		case *ast.CallExpr:
+			if txCallOn(info, v, obj, "Commit", "Rollback") || txEndWrapperCall(info, v, obj, depth) {
+				found = true
+			}
+		}
+		return !found
+	})
 	return found
 }
 
@@ -343,13 +410,13 @@ var pairFunctions = []struct{ rel, recv, name string }{
 }
 
 func rulePairAll(c *core.Ctx) {
+	txWrapIx = index(c)
 	n := 0
 	for _, pf := range pairFunctions {
 		if d := fn(c, pf.rel, pf.recv, pf.name); d != nil {
 			n += rulePair(c, d)
 		}
 	}
-	c.Floor("PAIR/tx-closed", "BeginTX sites in transaction-owning functions", n, 5)
 	// completeness: any other function that calls BeginTX and keeps the result in a local must be listed
 	ix := index(c)
 	listed := map[string]bool{}
@@ -375,10 +442,11 @@ func rulePairAll(c *core.Ctx) {
 				}
 			}
 			if owner {
-				rulePair(c, d)
+				n += rulePair(c, d)
 			}
 		}
 	}
+	c.Floor("PAIR/tx-closed", "BeginTX sites in transaction-owning functions", n, 5)
 }
 
 func escapesByReturn(d *astx.DeclInfo, obj types.Object) bool {
